@@ -13,6 +13,7 @@
 -/
 import NutsProofs.Lemmas.ComposeDag
 import NutsModel.C06.Cfg
+import NutsProofs.Props.C06
 import NutsProofs.Props.C08
 import NutsProofs.Props.C07
 
@@ -287,5 +288,111 @@ example : ∀ t, t ∈ (roundPairs Nuts.C07.Ex.exCfg Nuts.C07.Ex.idealEnv { key 
     { key := 0 } { key := 1 } 4 (by decide) Nuts.C07.Ex.exA Nuts.C07.Ex.exB (by decide) (by decide)
     Nuts.C07.Ex.exPairInv.nia Nuts.C07.Ex.exPairInv.nib Nuts.C07.Ex.exPairInv.ua Nuts.C07.Ex.exPairInv.ub
     Nuts.C07.Ex.exPairInv.ra Nuts.C07.Ex.exPairInv.rb Nuts.C07.Ex.exPairInv.la Nuts.C07.Ex.exPairInv.lb 2 (by decide)).1
+
+/-! ### any valid admission state, however it was reached: the other doors, concurrency, restart -/
+
+/-- **Static form.** For ANY state of the admission layer that satisfies C06's invariant (`C06.Inv`: the conclusion of
+    `dag_inv`, kept by every door — `other_doors_keep_invariant` — and every interleaving —
+    `concurrent_adds_keep_invariant`) and holds SHA-256 refs: feeding its admitted list in admission order to C08's `add`
+    never fails, and the resulting digest state's observables are C08's folds over exactly that list. -/
+theorem digests_of_valid_admission_state (env : C06.Env) (w : Wire) (s : C06.St) (hi : C06.Inv env s)
+    (hs : ∀ t ∈ s.txs, Small t.ref) :
+    (digests cfg w s : C08.State NB).disk.txs = embSet w s ∧ Reachable (digests cfg w s : C08.State NB) ∧
+    Observables (digests cfg w s : C08.State NB) (embSet w s) ∧ DagOK (view w env s) := by
+  obtain ⟨_, hrel⟩ := build_chain (n := NB) cfg_good w s.txs hi.chain hs
+  have hr : Reachable (digests cfg w s : C08.State NB) := reachable_build w _
+  have := C08.Props.state_refines_spec hr
+  rw [show (digests cfg w s : C08.State NB).disk.txs = embSet w s from hrel.txs] at this
+  exact ⟨hrel.txs, hr, this, dagOK_view w env _ hi.chain⟩
+
+/-- **Restart (C08 `restart_equiv` ∘ C06).** Stopping the node and reloading the digest trees from the persisted leaves
+    gives the same observables: C08's folds over C06's admitted set. -/
+theorem admitted_stream_digests_survive_restart (a : Adm) (w : Wire) (ds : List Delivery) (hs : ∀ d ∈ ds, Small d.ref) :
+    let nd : Node NB := Node.run a cfg w ds
+    (C08.restart cfg nd.dg).disk.txs = embSet w nd.st ∧ Observables (C08.restart cfg nd.dg) (embSet w nd.st) := by
+  intro nd
+  have m := admitted_stream_digests a w ds hs
+  simp only at m
+  obtain ⟨_, _, htxs, hr, _⟩ := m
+  have r := C08.Props.restart_equiv hr
+  have h1 : (C08.restart cfg nd.dg).disk.txs = embSet w nd.st := by rw [r.1]; exact htxs
+  refine ⟨h1, ?_⟩
+  have := r.2.1
+  rw [show nd.dg.disk.txs = embSet w nd.st from htxs] at this
+  exact this
+
+theorem seqRun_is_deliveries (a : Adm) (calls : List C06.Call) : ∀ (order : List Nat) (acc : C06.St × List (Nat × Res Unit)),
+    ∃ ds : List Delivery, (∀ d ∈ ds, ∃ c ∈ calls, d = .tx c.tx c.payload) ∧
+      (order.foldl (C06.seqStep a.env a.subs calls) acc).1 = ds.foldl (step6 a) acc.1 := by
+  intro order
+  induction order with
+  | nil => intro acc; exact ⟨[], by simp, rfl⟩
+  | cons i rest ih =>
+    intro acc
+    simp only [List.foldl_cons]
+    cases hc : calls[i]? with
+    | none =>
+      have : C06.seqStep a.env a.subs calls acc i = acc := by simp [C06.seqStep, hc]
+      rw [this]; exact ih acc
+    | some c =>
+      obtain ⟨ds, h1, h2⟩ := ih (C06.seqStep a.env a.subs calls acc i)
+      refine ⟨.tx c.tx c.payload :: ds, ?_, ?_⟩
+      · intro d hd
+        rcases List.mem_cons.mp hd with rfl | hd
+        · exact ⟨c, List.mem_of_getElem? hc, rfl⟩
+        · exact h1 d hd
+      · rw [h2]
+        simp only [List.foldl_cons]
+        congr 1
+        simp [C06.seqStep, hc, step6, deliver6]
+
+/-- **Concurrent submissions.** After any delivery history, ANY number of concurrent `Add` calls under ANY interleaving of
+    their read / write transactions (C06 `concurrent_adds_serialise`) end in an admission state whose digests — built by
+    feeding its admitted list to C08 — are C08's folds over that list, and whose protocol view is a valid DAG. -/
+theorem concurrent_admission_digests (a : Adm) (w : Wire) (ds : List Delivery) (hs : ∀ d ∈ ds, Small d.ref)
+    (calls : List C06.Call) (hc : ∀ c ∈ calls, Small c.tx.ref) (sched : List Nat) :
+    let wd := C06.run a.env a.subs calls sched { st := run6 a ds, pcs := List.replicate calls.length .start }
+    (digests cfg w wd.st : C08.State NB).disk.txs = embSet w wd.st ∧
+    Observables (digests cfg w wd.st : C08.State NB) (embSet w wd.st) ∧ DagOK (view w a.env wd.st) := by
+  intro wd
+  obtain ⟨order, _, _, hst, _⟩ := C06.Props.concurrent_adds_serialise a.env a.subs calls sched (run6 a ds)
+  obtain ⟨ds', hd', he⟩ := seqRun_is_deliveries a calls order (run6 a ds, [])
+  have h6 : Inv6 a wd.st := by
+    rw [← hst]
+    show Inv6 a (order.foldl (C06.seqStep a.env a.subs calls) (run6 a ds, [])).1
+    rw [he]
+    refine Inv6.run ds' (inv6_run6 a ds hs) ?_
+    intro d hd
+    obtain ⟨c, hcm, rfl⟩ := hd' d hd
+    exact hc c hcm
+  have := digests_of_valid_admission_state a.env w wd.st h6.inv h6.small
+  exact ⟨this.1, this.2.2.1, this.2.2.2⟩
+
+/-- **The TransactionList door is a sequence of single deliveries**: `handleList` (transport/v2 `handleTransactionList`
+    once the message parsed) ends in the state reached by delivering a prefix of its items one by one — so every theorem
+    over "every sequence of deliveries" covers it; and a payload arriving later (`latePayload`) does not touch the admitted
+    list, hence no digest. -/
+theorem other_doors_are_covered (a : Adm) (w : Wire) (s : C06.St) :
+    (∀ items, ∃ k, k ≤ items.length ∧ (C06.handleList a.env a.subs s items).1 =
+        ((items.take k).map (fun it => Delivery.tx it.tx it.payload)).foldl (step6 a) s) ∧
+    (∀ ref p, (digests cfg w (C06.latePayload a.env a.subs s ref p).1 : C08.State NB) = digests cfg w s) := by
+  refine ⟨fun items => handleList_prefix a items s, fun ref p => ?_⟩
+  rw [digests_eq_build, digests_eq_build, latePayload_txs]
+
+/-- **A range reply is C08's listing.** For every window `[x, y)`, C08's `FindBetweenLC` on the composed node's digest
+    state returns exactly the refs of C07's `findBetween` on the protocol view, in the same (clock, ref) order. -/
+theorem range_reply_is_c08_listing (a : Adm) (w : Wire) (ds : List Delivery) (hs : ∀ d ∈ ds, Small d.ref) (x y : Nat) :
+    let nd : Node NB := Node.run a cfg w ds
+    C08.listing nd.dg x y = .ok ((findBetween (view w a.env nd.st) x y).map (fun t => embRef t.ref)) := by
+  intro nd
+  have hok : NodeOK a cfg w nd := NodeOK.run ds (NodeOK.init a cfg w) hs
+  have m := admitted_stream_digests a w ds hs
+  simp only at m
+  rw [m.2.2.2.2.listing x y]
+  congr 1
+  exact listing_view w a.env hok.1.small (C06.chain_nodup hok.1.inv.chain) x y
+
+example : (C06.handleList Ex.adm.env Ex.adm.subs {} [⟨Ex.root, some 1⟩, ⟨Ex.mk 13 5 [11] 103, some 3⟩, ⟨Ex.child, some 2⟩]).1.txs = [Ex.root] := by decide
+example : C08.listing (Node.run Ex.adm cfg Ex.wire Ex.ds : Node NB).dg 0 5 = .ok [11, 12] := by decide
 
 end Nuts.Compose.Dag.Props
